@@ -128,19 +128,33 @@ def build_int(rng):
                 rhs = "xs" if rng.random() < 0.5 else ", ".join(f"xs[{j}]" for j in range(n))
                 lefts = [f"ul{j}" for j in range(nl)]
                 rights = [f"ur{j}" for j in range(nr)]
+                coincide = nl >= 1 and nr >= 1 and rng.random() < 0.35
+                if coincide:
+                    # a target on the left and one on the right name the same location (same
+                    # variable, or the same slot of another array): assignment is left to right, so
+                    # the right-hand one wins
+                    if rng.random() < 0.5:
+                        rights[-1] = lefts[0]
+                    else:
+                        lines.append("    zs = array(0, 0, 0)")
+                        slot = rng.randrange(3)
+                        lefts[0] = f"zs[{slot}]"
+                        rights[-1] = f"zs[{slot}]"
                 lines.append(f"    {', '.join(lefts + ['*um'] + rights)} = {rhs}")
                 ls, ex = rep(model[nl:n - nr])
+                final = {}
                 for j, nm in enumerate(lefts):
-                    lines.append(f'    result("{nm}", {nm})')
-                    exp.append((nm, model[j]))
+                    final[nm] = model[j]
+                for j, nm in enumerate(rights):
+                    final[nm] = model[n - nr + j]
+                for nm in dict.fromkeys(lefts + rights):
+                    tag = nm.replace("[", "_").replace("]", "")
+                    lines.append(f'    result("{tag}", {nm})')
+                    exp.append((tag, final[nm]))
                 lines += ls
                 exp += ex
-                for j, nm in enumerate(rights):
-                    lines.append(f'    result("{nm}", {nm})')
-                    exp.append((nm, model[n - nr + j]))
-                kinds.append("starred_unpack" if rhs == "xs" else "starred_unpack_of_tuple")
-                if False:
-                    pass
+                kinds.append(("starred_unpack" if rhs == "xs" else "starred_unpack_of_tuple")
+                             + ("_coinciding_targets" if coincide else ""))
 
             elif n >= 1:
                 names = [f"e{j}" for j in range(n)]
